@@ -62,6 +62,11 @@ type bundleOpts struct {
 	illTyped   int
 	noFloatFmt bool // avoid float results whose print form differs between backends
 	jsSafe     bool // restrict to the subset both backends define (C04)
+	// hooks of other generators (nil = no change of behaviour or of the random stream):
+	extraCmd        func(g *bundleGen, s *gScope, depth int) (string, bool) // consulted first by cmd()
+	extraLit        func(g *bundleGen, t ty) (string, bool)                 // consulted first by lit()
+	extraDirectives []string                                                // more print directive suffixes
+	noLog           bool                                                    // no {log} commands
 }
 
 func typeOfName(n string) ty {
@@ -158,6 +163,11 @@ func (e *scopedExprGen) v(t ty) (string, bool) {
 
 func (e *scopedExprGen) lit(t ty) string {
 	r := e.g.r
+	if e.g.opts.extraLit != nil {
+		if s, ok := e.g.opts.extraLit(e.g, t); ok {
+			return s
+		}
+	}
 	switch t {
 	case tInt:
 		return strconv.Itoa(r.Intn(12))
@@ -276,9 +286,13 @@ func (g *bundleGen) print(s *gScope, depth int) string {
 	e := g.expr(s, depth, t)
 	dir := ""
 	if g.opts.directives && g.r.Intn(4) == 0 {
-		dir = simpleDirectives[g.r.Intn(len(simpleDirectives))]
+		dirs := simpleDirectives
+		if len(g.opts.extraDirectives) > 0 {
+			dirs = append(append([]string(nil), simpleDirectives...), g.opts.extraDirectives...)
+		}
+		dir = dirs[g.r.Intn(len(dirs))]
 		if g.r.Intn(4) == 0 {
-			dir += simpleDirectives[g.r.Intn(len(simpleDirectives))]
+			dir += dirs[g.r.Intn(len(dirs))]
 		}
 		g.stat("directive")
 	}
@@ -315,6 +329,11 @@ func (g *bundleGen) block(outer *gScope, depth int) string {
 
 func (g *bundleGen) cmd(s *gScope, depth int) string {
 	r := g.r
+	if g.opts.extraCmd != nil {
+		if out, ok := g.opts.extraCmd(g, s, depth); ok {
+			return out
+		}
+	}
 	choice := r.Intn(20)
 	if depth <= 0 && choice >= 8 {
 		choice = r.Intn(8)
@@ -425,7 +444,7 @@ func (g *bundleGen) cmd(s *gScope, depth int) string {
 			return "{css " + g.expr(s, 0, tStr) + ", suf-fix}"
 		}
 		return "{css my-class}"
-	case choice == 18:
+	case choice == 18 && !g.opts.noLog:
 		g.stat("log")
 		return "{log}" + g.block(s, 0) + "{/log}"
 	case choice == 19 && g.opts.msgs:
